@@ -283,8 +283,8 @@ def dispatch (op : String) (a : Args) : Option String :=
       let l2 ← a.get "l2" >>= parseBinsOf parseItems
       pure (jList jBins (allCombContents nmOf (Bins.mk s1 l1) (Bins.mk s2 l2)))
   | "bin_completion" => do
-      pure (match BC.binCompletion (← a.nat "B") ((← a.items "items").map val) FUEL with
-            | .ok bins => jB a (Bins.mk (bins.map sumL) (bins.map fun l => l.map fun x => (x, x)))
+      pure (match BC.binCompletionNamed val (← a.nat "B") (← a.items "items") FUEL with
+            | .ok bins => jB a (Bins.mk (bins.map (binSum val)) bins)
             | .error e => jErr e)
   | "bc_trace" => do
       pure (match BC.binCompletionT (← a.nat "B") (← a.nats "vals") FUEL with
